@@ -49,14 +49,15 @@ def run(ctx, proof):
     gaps = list(GAP_FUNCTIONS.keys())
     comps = ["superadditive", "superadditive_cached", "sam_apx_1"]
     cases = []
-    for _ in range(6 if ctx.quick else 40):
+    for case_i in range(6 if ctx.quick else 40):
         n = 3 if rng.random() < 0.5 else 4
         comp = rng.choice(comps)
         gap = rng.choice(gaps)
         klass = "sam" if comp.startswith("sam") else "sa"
         v = games.sa_closure_game(rng, n, rng.choice(["int", "dyadic"]), neg_singletons=False) if klass == "sa" else games.sam_game(rng, n, "int")
         opt = games.optional_ids(n)
-        extra = rng.sample(opt, rng.choice([0, 0, 1, 3]) if n == 4 else rng.choice([0, 0, 1]))
+        # starting knowledge: the minimal information alone, or strictly more (deterministically alternating)
+        extra = rng.sample(opt, [0, 1, 3, 2][case_i % 4] if n == 4 else [0, 1][case_i % 2])
         K0 = sorted(games.minimal_ids(n) + extra)
         nunk = len(opt) - len(extra)
         k = rng.randint(0, nunk) if n == 3 else rng.randint(0, 3 if ctx.quick else min(nunk, 4))
@@ -223,6 +224,8 @@ def run(ctx, proof):
             got = float(np.mean(best[r]))
             if not rclose(got, mn):
                 fails.append((r, "mean not minimal", got, mn))
+            if len(acts[r]) != r:
+                fails.append((r, f"the set reported for size {r} has {len(acts[r])} coalitions", acts[r]))
             col_of = {tuple(s): col for s, col in cands}
             if tuple(acts[r]) not in col_of or not all(rclose(a, b) for a, b in zip(best[r], col_of[tuple(acts[r])])):
                 fails.append((r, "recorded set does not attain the recorded values", acts[r]))
